@@ -5,3 +5,4 @@ pub mod gen;
 pub mod model;
 pub mod props;
 pub mod prover;
+pub mod vdb;
